@@ -43,7 +43,7 @@ man = {
                  "kind_free_text": "Lean 4 model + theorems (lake), Go extractor + correspondence driver, compiled Lean oracle"} for k, v in engines.items()],
     "checks": checks,
     "not_applicable": na,
-    "notes": "All checks: ./check <Cid> --tier quick|thorough (python3). Every run regenerates lean/KafkaVerif/Gen/* from /repo, rebuilds the Lean property module, audits axioms, rebuilds the Go driver against /repo with -tags verif, and diffs implementation vs the compiled Lean oracle. Known findings: known_findings.json. hooks.add_only: no hook commit rewrites or deletes a line of the original library; a few later hook commits rewrite lines that EARLIER hook commits had added (inside `if verifOn { … }` blocks or in the build-tag-guarded verif_*.go files: 31a5456 4ebd5b5 ac4c0fa b4d5fc1 10aaded 51c73b8 d9da662 9901286 f401b5e ab011dd 951dd15), checked with `git show --numstat` over hooks.source_commits.",
+    "notes": "All checks: ./check <Cid> --tier quick|thorough (python3). Every run regenerates lean/KafkaVerif/Gen/* from /repo, rebuilds the Lean property module, audits axioms, rebuilds the Go driver against /repo with -tags verif, and diffs implementation vs the compiled Lean oracle. Known findings: known_findings.json. hooks.add_only: no hook commit rewrites or deletes a line of the original library; a few later hook commits rewrite lines that EARLIER hook commits had added (inside `if verifOn { … }` blocks or in the build-tag-guarded verif_*.go files: 31a5456 4ebd5b5 ac4c0fa b4d5fc1 10aaded 51c73b8 d9da662 9901286 f401b5e ab011dd 951dd15 d2b661a), checked with `git show --numstat` over hooks.source_commits.",
 }
 json.dump(man, open(os.path.join(ROOT, "MANIFEST.json"), "w"), indent=1)
 print("checks:", [c["property_id"] for c in checks], "n/a:", [n["property_id"] for n in na])
